@@ -69,6 +69,9 @@ enum Sc {
         del: f64,
         genome: UmadGenome,
         len: usize,
+        /// Plushy only: bit i set => parent gene i is a `Close` marker
+        #[serde(default)]
+        close_mask: u64,
         rng: RngSpec,
     },
 }
@@ -103,10 +106,16 @@ impl Distribution<PushGene> for ProbeGen {
     }
 }
 
+/// Close markers carry no tag; they are encoded as this value.
+const CLOSE: u32 = u32::MAX;
+
 fn gene_value(g: &PushGene) -> Option<u32> {
     match g {
-        PushGene::Instruction(PushInstruction::IntInstruction(IntInstruction::Push(p))) => u32::try_from(p.0).ok(),
-        _ => None,
+        PushGene::Close => Some(CLOSE),
+        PushGene::Instruction(PushInstruction::IntInstruction(IntInstruction::Push(p))) => {
+            u32::try_from(p.0).ok().filter(|v| *v != CLOSE)
+        }
+        PushGene::Instruction(_) => None,
     }
 }
 
@@ -258,11 +267,14 @@ fn check_umad(
     del: f64,
     genome: UmadGenome,
     len: usize,
+    close_mask: u64,
     spec: &RngSpec,
     obs: &mut Obs,
 ) -> Vec<Violation> {
     let mut rng = spec.build();
     let site = format!("Umad::{ctor:?}/{genome:?}");
+    let close_mask = if genome == UmadGenome::Plushy && len > 0 { close_mask & ((1u64 << len.min(63)) - 1) } else { 0 };
+    let is_close = |i: usize| i < 63 && close_mask >> i & 1 == 1;
     let probe = ProbeGen { log: RefCell::new(Vec::new()) };
     let r = catch(|| -> Vec<Option<u32>> {
         let umad = match ctor {
@@ -279,9 +291,13 @@ fn check_umad(
                 }
             }
             UmadGenome::Plushy => {
-                let parent = Plushy::new(
-                    (0..len as i64).map(|i| PushGene::Instruction(PushInstruction::push_int(i))),
-                );
+                let parent = Plushy::new((0..len).map(|i| {
+                    if is_close(i) {
+                        PushGene::Close
+                    } else {
+                        PushGene::Instruction(PushInstruction::push_int(i as i64))
+                    }
+                }));
                 match umad.mutate(parent, &mut rng) {
                     Ok(c) => c.get_genes().iter().map(gene_value).collect(),
                     Err(e) => match e {},
@@ -304,7 +320,14 @@ fn check_umad(
         Ok(c) => c,
     };
     let log = probe.log.borrow().clone();
-    let cfg = format!("add {add}, empty {empty}, del {del}, len {len}");
+    let cfg = format!("add {add}, empty {empty}, del {del}, len {len}, close mask {close_mask:#b}");
+    if close_mask != 0 {
+        obs.hit("probe.plushy-parent-with-close-markers");
+        if close_mask & 1 == 1 {
+            obs.hit("probe.plushy-parent-starts-with-close");
+        }
+        return check_umad_with_closes(&site, &cfg, &child, &log, len, close_mask, add, del, obs);
+    }
     // parse the child
     let mut olds: Vec<usize> = Vec::new();
     let mut news: Vec<u32> = Vec::new();
@@ -459,6 +482,106 @@ fn check_umad(
     v
 }
 
+/// Parents that contain (untagged) `Close` markers: the surviving old genes
+/// must still be a subsequence of the parent, new genes come from the
+/// generator, and the degenerate-rate identities hold exactly.
+#[allow(clippy::too_many_arguments)]
+fn check_umad_with_closes(
+    site: &str,
+    cfg: &str,
+    child: &[Option<u32>],
+    log: &[u32],
+    len: usize,
+    close_mask: u64,
+    add: f64,
+    del: f64,
+    obs: &mut Obs,
+) -> Vec<Violation> {
+    let mut v = Vec::new();
+    let parent: Vec<u32> = (0..len).map(|i| if close_mask >> i & 1 == 1 { CLOSE } else { i as u32 }).collect();
+    let mut olds: Vec<u32> = Vec::new();
+    let mut news: Vec<u32> = Vec::new();
+    for g in child {
+        match g {
+            None => {
+                v.push(Violation::new(
+                    "genes-from-parent-or-generator",
+                    format!("alien-gene:{site}"),
+                    format!("{cfg}: the child contains a gene that is neither a parent gene nor one the generator produced"),
+                ));
+                return v;
+            }
+            Some(x) if *x >= NEW_BASE && *x != CLOSE => news.push(*x),
+            Some(x) => olds.push(*x),
+        }
+    }
+    {
+        let mut it = parent.iter();
+        if !olds.iter().all(|o| it.any(|p| p == o)) {
+            v.push(Violation::new(
+                "survivors-keep-order",
+                format!("order:{site}"),
+                format!("{cfg}: surviving parent genes {olds:?} are not a subsequence of the parent {parent:?} (Close = {CLOSE})"),
+            ));
+        }
+    }
+    {
+        let mut it = log.iter();
+        if !news.iter().all(|n| it.any(|l| l == n)) {
+            v.push(Violation::new(
+                "new-genes-from-generator",
+                format!("new-genes:{site}"),
+                format!("{cfg}: new genes {news:?} are not (in order) among the generator's {log:?}"),
+            ));
+        }
+    }
+    if news.len() > len {
+        v.push(Violation::new(
+            "at-most-one-insert-per-position",
+            format!("insert-count:{site}"),
+            format!("{cfg}: {} new genes for {len} parent positions", news.len()),
+        ));
+    }
+    let as_vec: Vec<u32> = child.iter().map(|g| g.unwrap_or(0)).collect();
+    if add <= 0.0 && del <= 0.0 {
+        obs.hit("probe.umad-rate-0");
+        if as_vec != parent {
+            v.push(Violation::new(
+                "rate-0-is-identity",
+                format!("rate0:{site}"),
+                format!("{cfg}: child {as_vec:?} is not the parent {parent:?} (Close = {CLOSE})"),
+            ));
+        }
+    }
+    if del >= 1.0 {
+        obs.hit("probe.umad-deletion-1");
+        if !child.is_empty() {
+            v.push(Violation::new("deletion-1-empties", format!("del1:{site}"), format!("{cfg}: deletion rate 1 left {} genes", child.len())));
+        }
+    }
+    if add >= 1.0 && del <= 0.0 {
+        obs.hit("probe.umad-addition-1-deletion-0");
+        let alternates = as_vec.len() == 2 * len
+            && as_vec.chunks(2).enumerate().all(|(i, c)| c[0] == parent[i] && c[1] >= NEW_BASE && c[1] != CLOSE);
+        if !alternates {
+            v.push(Violation::new(
+                "addition-1-alternates",
+                format!("add1:{site}"),
+                format!("{cfg}: child {as_vec:?} is not old,new,old,new,... of parent {parent:?} (Close = {CLOSE})"),
+            ));
+        }
+    }
+    if len >= 2 {
+        let mut fp = fnv1a(site.as_bytes());
+        fp = mix(fp, close_mask);
+        for g in &as_vec {
+            fp = mix(fp, if *g >= NEW_BASE && *g != CLOSE { u64::from(NEW_BASE) } else { u64::from(*g) });
+        }
+        obs.nontrivial(fp);
+    }
+    v
+}
+
 struct C11;
 
 const RATES64: [f64; 9] = [0.0, 0.0, 5.960_464_477_539_063e-8, 0.1, 0.5, 0.9, 0.999_999_940_395_355_2, 1.0, 1.0];
@@ -511,6 +634,11 @@ impl Check for C11 {
                 del: *g.pick(&RATES64),
                 genome: *g.pick(&[UmadGenome::VectorU32, UmadGenome::Plushy]),
                 len,
+                close_mask: match g.below(4) {
+                    0 | 1 => 0,
+                    2 => g.next_u64() & g.next_u64(),
+                    _ => g.next_u64() | 1, // starts with Close
+                },
                 rng,
             }
         }
@@ -519,8 +647,8 @@ impl Check for C11 {
     fn execute(&self, sc: &Sc, obs: &mut Obs) -> Vec<Violation> {
         match sc {
             Sc::Flip { rate_bits, container, len, rng } => check_flip(*rate_bits, *container, *len, rng, obs),
-            Sc::Umad { ctor, add, empty, del, genome, len, rng } => {
-                check_umad(*ctor, *add, *empty, *del, *genome, *len, rng, obs)
+            Sc::Umad { ctor, add, empty, del, genome, len, close_mask, rng } => {
+                check_umad(*ctor, *add, *empty, *del, *genome, *len, *close_mask, rng, obs)
             }
         }
     }
@@ -548,7 +676,7 @@ impl Check for C11 {
                     out.push(Sc::Flip { rate_bits: *rate_bits, container: *container, len: *len, rng: r });
                 }
             }
-            Sc::Umad { ctor, add, empty, del, genome, len, rng } => {
+            Sc::Umad { ctor, add, empty, del, genome, len, close_mask, rng } => {
                 let mk = |len: usize, rng: RngSpec, genome: UmadGenome| Sc::Umad {
                     ctor: *ctor,
                     add: *add,
@@ -556,8 +684,21 @@ impl Check for C11 {
                     del: *del,
                     genome,
                     len,
+                    close_mask: *close_mask,
                     rng,
                 };
+                if *close_mask != 0 {
+                    out.push(Sc::Umad {
+                        ctor: *ctor,
+                        add: *add,
+                        empty: *empty,
+                        del: *del,
+                        genome: *genome,
+                        len: *len,
+                        close_mask: 0,
+                        rng: rng.clone(),
+                    });
+                }
                 if *len > 0 {
                     out.push(mk(len - 1, rng.clone(), *genome));
                 }
